@@ -1,6 +1,7 @@
 import VlsModel.Props.C18
 import VlsModel.Gen.FnByteUtils
 import VlsModel.Gen.FnChanId
+import VlsModel.Gen.FnDerive
 import VlsModel.Lemmas.FnGen
 /-
 C18 — `Keys.be64` (the BIP32 child index `LdkKeyDerive::channel_keys` reads off `keys_id[0..8]`,
@@ -198,6 +199,46 @@ theorem C18_fn_chanid_injective (p p' : Bytes) (o o' : Nat) (hp : p.length = 33)
        = Gen.FnChanId.ChannelId.new_from_peer_id_and_oid (toN p') o') : p = p' ∧ o = o' := by
   rw [C18_fn_chanid_of_peer_oid p o hp, C18_fn_chanid_of_peer_oid p' o' hp'] at h
   exact Props.C18.C18_chanid_injective p p' o o' (by omega) ho ho' (toN_inj _ _ (Except.ok.inj h))
+
+
+/-! ## derive.rs: `channels_seed`, `keys_id` (trait default = Native and Lnd, and the LDK override)
+
+`hkdf_sha256` (crypto_utils.rs) is an explicit parameter `ext` of the generated definitions; the model's `Prims.hkdf32`
+is the same function on `Bytes` (`hext`).  What is proved from the source text: which argument is the secret, which the
+info string (its bytes, spelled out by the translator from the literal) and which the salt, and the LDK masking
+statements `res[0] = 0; … res[4] &= 0x7f` one by one. -/
+
+/-- **C18_fn_channels_seed.** generated `KeyDerive::channels_seed` (trait default, any implementor) = `channelSeedBase` -/
+theorem C18_fn_channels_seed {SelfT : Type} (P : Prims) (ext : List Nat → List Nat → List Nat → List Nat)
+    (hext : ∀ a b c, ext (toN a) (toN b) (toN c) = toN (P.hkdf32 a b c)) (self : SelfT) (seed : Bytes) :
+    Gen.FnDerive.KeyDerive.channels_seed ext self (toN seed) = toN (channelSeedBase P seed) := by
+  have := hext seed Gen.KeyDeriveUse.infoPeerSeed []
+  simpa [Gen.FnDerive.KeyDerive.channels_seed, channelSeedBase, toN, Gen.KeyDeriveUse.infoPeerSeed] using this
+
+/-- **C18_fn_keys_id_default.** generated default `KeyDerive::keys_id` = `keysIdOf` for the styles that do not
+    override it (Native, Lnd): secret = the channel seed base, info = "per-peer seed", salt = the channel id -/
+theorem C18_fn_keys_id_default {SelfT : Type} (P : Prims) (ext : List Nat → List Nat → List Nat → List Nat)
+    (hext : ∀ a b c, ext (toN a) (toN b) (toN c) = toN (P.hkdf32 a b c)) (self : SelfT) (base id : Bytes) :
+    Gen.FnDerive.KeyDerive.keys_id ext self (toN id) (toN base) = toN (keysIdOf P .native base id) ∧
+    Gen.FnDerive.KeyDerive.keys_id ext self (toN id) (toN base) = toN (keysIdOf P .lnd base id) := by
+  have := hext base Gen.KeyDeriveUse.infoPerPeerSeed id
+  constructor <;>
+    simpa [Gen.FnDerive.KeyDerive.keys_id, keysIdOf, maskOf, applyMask, Gen.KeyDeriveUse.nativeKeysIdMask,
+      Gen.KeyDeriveUse.lndKeysIdMask, toN, Gen.KeyDeriveUse.infoPerPeerSeed] using this
+
+/-- **C18_fn_keys_id_ldk.** generated `LdkKeyDerive::keys_id` = `keysIdOf .ldk` (HKDF, then the five masking
+    statements); the HKDF output is a `[u8; 32]`, at least the five bytes the statements index -/
+theorem C18_fn_keys_id_ldk (P : Prims) (ext : List Nat → List Nat → List Nat → List Nat)
+    (hext : ∀ a b c, ext (toN a) (toN b) (toN c) = toN (P.hkdf32 a b c)) (self : Gen.FnDerive.LdkKeyDerive)
+    (base id : Bytes) (hlen : 5 ≤ (P.hkdf32 base Gen.KeyDeriveUse.infoPerPeerSeed id).length) :
+    Gen.FnDerive.LdkKeyDerive.keys_id ext self (toN id) (toN base) = .ok (toN (keysIdOf P .ldk base id)) := by
+  have he := hext base Gen.KeyDeriveUse.infoPerPeerSeed id
+  have hi : toN Gen.KeyDeriveUse.infoPerPeerSeed = [112, 101, 114, 45, 112, 101, 101, 114, 32, 115, 101, 101, 100] := by decide
+  rw [hi] at he
+  match hr : P.hkdf32 base Gen.KeyDeriveUse.infoPerPeerSeed id, hlen with
+  | b0 :: b1 :: b2 :: b3 :: b4 :: rest, _ =>
+    simp only [Gen.FnDerive.LdkKeyDerive.keys_id, keysIdOf, maskOf, he, hr]
+    simp [toN, Rs.setIndex, Rs.index, applyMask, Gen.KeyDeriveUse.ldkKeysIdMask, List.modify]
 
 /-- **C18_fn_ldk_index_in_range.** the LDK derivation's `assert!(chan_id <= u32::MAX)` and
     `from_hardened_idx(chan_id as u32)` see exactly the value of the generated function: on a keys id masked with the
